@@ -22,7 +22,9 @@ CONSTANTS N,        \* valid clusters are 2..N+1
           ROOT16,   \* TRUE: fixed root region of RS slots (FAT16); FALSE: the root is a cluster chain from cluster 2 (FAT32)
           RS, SPC,  \* slots in the fixed root / slots per directory cluster
           Names, MaxLen, MaxOpen,
-          BugF1, BugF2, BugF3, BugF9, BugF18   \* the repaired defects, switchable
+          BugF1, BugF2, BugF3, BugF9, BugF18,  \* the repaired defects, switchable
+          CntChoices, HintChoices,             \* FAT32: what the information sector may hold at the first mount (-1 / 0 = unknown; exact, stale, out of range)
+          BugF15                               \* truncation counts one freed cluster too few
 
 End == N + 2                                   \* first invalid cluster number
 L == ((End + EPS - 1) \div EPS) * EPS          \* FAT entries that exist on the medium (incl. slack)
@@ -43,12 +45,17 @@ VARIABLES
   after,       \* in-memory state to install when the plan has been issued: [hint, ofiles]
   flushed,     \* history variable (C09): [name -> [c, len]] as of the last successful flush/close, until next modified
   crashed,     \* a crash happened in this behaviour (space/copy equalities are only claimed for crash-free behaviours)
-  lastOp       \* label for tours / replay (hidden by the VIEW of the checking configurations)
+  lastOp,      \* label for tours / replay (hidden by the VIEW of the checking configurations)
+  cnt,         \* in-memory free-cluster count (-1 = unknown; always -1 on FAT16)   volume.rs free_clusters_count
+  info,        \* the FAT32 information sector on the medium: [cnt, hint]
+  acct         \* history variable (C16): [c0 count at mount, f0 clusters really free at mount, sat: a decrement met 0, missed: an
+               \*  allocation failed although a cluster was free, wr: the record was written since the last change]
 
-vars == <<fat, fat2, blk, hint, ofiles, plan, after, flushed, crashed, lastOp>>
-view == <<fat, fat2, blk, hint, ofiles, plan, after, flushed, crashed>>
+vars == <<fat, fat2, blk, hint, ofiles, plan, after, flushed, crashed, lastOp, cnt, info, acct>>
+view == <<fat, fat2, blk, hint, ofiles, plan, after, flushed, crashed, cnt, info, acct>>
 
 Clusters == 2..(N + 1)
+FreeNow == Cardinality({c \in Clusters : fat[c] = Free})
 RootBlocks == IF ROOT16 THEN <<0>> ELSE <<>>
 
 \* ------------------------------------------------------------------ reading the medium
@@ -87,7 +94,7 @@ Alloc(F, h, prev, zero) ==
   LET start == IF h # 0 /\ h < End THEN h ELSE 2
       n1 == FirstFreeFrom(F, start)
       new == IF n1 # 0 THEN n1 ELSE IF start > 2 THEN FirstFreeFrom(F, 2) ELSE 0
-  IN IF new = 0 THEN [ok |-> FALSE, c |-> 0, ws |-> <<>>, hint |-> h, F |-> F]
+  IN IF new = 0 THEN [ok |-> FALSE, c |-> 0, ws |-> <<>>, hint |-> h, F |-> F, took |-> 0, missed |-> \E c \in Clusters : F[c] = Free]
      ELSE LET F1 == SetF(F, new, EOC)
               F2 == IF prev # 0 THEN SetF(F1, prev, new) ELSE F1
               wEoc == <<[t |-> "fat", c |-> new, v |-> EOC]>>
@@ -96,17 +103,18 @@ Alloc(F, h, prev, zero) ==
               ws == IF BugF18 THEN wEoc \o wLink \o wZero ELSE wEoc \o wZero \o wLink      \* zero before linking (fix F18)
               r1 == FirstFreeFrom(F2, new)
               r2 == IF r1 # 0 THEN r1 ELSE IF new > 2 THEN FirstFreeFrom(F2, 2) ELSE 0
-          IN IF r2 = 0 /\ BugF2 THEN [ok |-> FALSE, c |-> new, ws |-> ws, hint |-> h, F |-> F2]   \* error after the writes
-             ELSE [ok |-> TRUE, c |-> new, ws |-> ws, hint |-> r2, F |-> F2]
+          IN IF r2 = 0 /\ BugF2 THEN [ok |-> FALSE, c |-> new, ws |-> ws, hint |-> h, F |-> F2, took |-> 0, missed |-> FALSE]   \* error after the writes
+             ELSE [ok |-> TRUE, c |-> new, ws |-> ws, hint |-> r2, F |-> F2, took |-> 1, missed |-> FALSE]
 
 \* truncate_cluster_chain (volume.rs 1184-1228): keep `c`, free everything behind it
 RECURSIVE FreeFrom(_, _, _)
 FreeFrom(F, c, fuel) == IF c \notin Clusters \/ fuel = 0 \/ F[c] = Free THEN <<>>
                         ELSE <<[t |-> "fat", c |-> c, v |-> Free]>> \o (IF F[c] = EOC THEN <<>> ELSE FreeFrom(F, F[c], fuel - 1))
-Truncate(F, h, c) ==   \* [ws, hint]
-  IF c < 2 \/ F[c] = EOC \/ F[c] = Free THEN [ws |-> <<>>, hint |-> h]
+Truncate(F, h, c) ==   \* [ws, hint, freed]
+  IF c < 2 \/ F[c] = EOC \/ F[c] = Free THEN [ws |-> <<>>, hint |-> h, freed |-> 0]
   ELSE [ws |-> <<[t |-> "fat", c |-> c, v |-> EOC]>> \o FreeFrom(F, F[c], N),
-        hint |-> IF h = 0 \/ h > F[c] THEN F[c] ELSE h]
+        hint |-> IF h = 0 \/ h > F[c] THEN F[c] ELSE h,
+        freed |-> Len(FreeFrom(F, F[c], N)) - (IF BugF15 THEN 1 ELSE 0)]
 
 \* write_new_directory_entry (volume.rs 393-538): first free slot, growing the directory if it has none
 FreeSlotPos(F, B) ==
@@ -115,11 +123,11 @@ FreeSlotPos(F, B) ==
   IN IF cands = {} THEN <<0, 0>> ELSE CHOOSE p \in cands : \A q \in cands : p[1] < q[1] \/ (p[1] = q[1] /\ p[2] <= q[2])
 NewEntry(F, B, h, sl) ==   \* [ok, ws, hint, b, i]
   LET p == FreeSlotPos(F, B)  bs == RootChainBlocks(F) IN
-  IF p # <<0, 0>> THEN [ok |-> TRUE, ws |-> <<[t |-> "slot", b |-> bs[p[1]], i |-> p[2], sl |-> sl]>>, hint |-> h, b |-> bs[p[1]], i |-> p[2]]
-  ELSE IF ROOT16 THEN [ok |-> FALSE, ws |-> <<>>, hint |-> h, b |-> 0, i |-> 0]
+  IF p # <<0, 0>> THEN [ok |-> TRUE, ws |-> <<[t |-> "slot", b |-> bs[p[1]], i |-> p[2], sl |-> sl]>>, hint |-> h, b |-> bs[p[1]], i |-> p[2], took |-> 0, missed |-> FALSE]
+  ELSE IF ROOT16 THEN [ok |-> FALSE, ws |-> <<>>, hint |-> h, b |-> 0, i |-> 0, took |-> 0, missed |-> FALSE]
   ELSE LET a == Alloc(F, h, bs[Len(bs)], TRUE) IN
-       IF ~a.ok THEN [ok |-> FALSE, ws |-> a.ws, hint |-> a.hint, b |-> 0, i |-> 0]
-       ELSE [ok |-> TRUE, ws |-> a.ws \o <<[t |-> "slot", b |-> a.c, i |-> 1, sl |-> sl]>>, hint |-> a.hint, b |-> a.c, i |-> 1]
+       IF ~a.ok THEN [ok |-> FALSE, ws |-> a.ws, hint |-> a.hint, b |-> 0, i |-> 0, took |-> 0, missed |-> a.missed]
+       ELSE [ok |-> TRUE, ws |-> a.ws \o <<[t |-> "slot", b |-> a.c, i |-> 1, sl |-> sl]>>, hint |-> a.hint, b |-> a.c, i |-> 1, took |-> 1, missed |-> FALSE]
 
 \* ------------------------------------------------------------------ applying one device write
 ZeroBlock == [j \in 1..SPC |-> EndSlot]
@@ -140,26 +148,45 @@ Init ==
   /\ fat = [c \in 2..(L - 1) |-> IF ~ROOT16 /\ c = 2 THEN EOC ELSE Free]
   /\ fat2 = fat
   /\ blk = IF ROOT16 THEN [b \in {0} |-> [j \in 1..RS |-> EndSlot]] ELSE [b \in {2} |-> ZeroBlock]
-  /\ hint = 0 /\ ofiles = <<>> /\ plan = <<>> /\ after = [hint |-> 0, ofiles |-> <<>>, fl |-> <<>>]
+  /\ ofiles = <<>> /\ plan = <<>>
   /\ flushed = [n \in {} |-> 0] /\ crashed = FALSE /\ lastOp = <<"init">>
+  \* mounting reads the information sector (FAT32): whatever it holds becomes the in-memory count and hint
+  /\ \E c0 \in (IF ROOT16 THEN {-1} ELSE CntChoices), h0 \in (IF ROOT16 THEN {0} ELSE HintChoices) :
+       /\ info = [cnt |-> c0, hint |-> h0] /\ cnt = c0 /\ hint = h0
+       /\ acct = [c0 |-> c0, f0 |-> IF ROOT16 THEN N ELSE N - 1, sat |-> FALSE, missed |-> FALSE, wr |-> TRUE]
+       /\ after = [hint |-> h0, ofiles |-> <<>>, fl |-> <<>>, cnt |-> c0, acct |-> [c0 |-> c0, f0 |-> IF ROOT16 THEN N ELSE N - 1, sat |-> FALSE, missed |-> FALSE, wr |-> TRUE]]
 
 Idle == plan = <<>>
-Start(ws, h, of, label) ==
-  /\ plan' = Expand(ws) /\ after' = [hint |-> h, ofiles |-> of, fl |-> <<>>] /\ lastOp' = label
-  /\ IF Expand(ws) = <<>> THEN hint' = h /\ ofiles' = of ELSE UNCHANGED <<hint, ofiles>>
-  /\ UNCHANGED <<fat, fat2, blk, crashed>>
+\* the in-memory count follows the allocations (saturating at 0: the stored value may be stale) and the frees
+RECURSIVE CountAfter(_, _)
+CountAfter(c, steps) == IF steps = <<>> \/ c = -1 THEN c
+                        ELSE CountAfter(IF Head(steps) < 0 THEN (IF c = 0 THEN 0 ELSE c - 1) ELSE c + Head(steps), Tail(steps))
+RECURSIVE SatIn(_, _)
+SatIn(c, steps) == IF steps = <<>> \/ c = -1 THEN FALSE
+                   ELSE (Head(steps) < 0 /\ c = 0) \/ SatIn(IF Head(steps) < 0 THEN (IF c = 0 THEN 0 ELSE c - 1) ELSE c + Head(steps), Tail(steps))
+\* steps: the count changes of the call in order (-1 per allocation, +k per k clusters freed); ms: an allocation missed a free cluster
+StartC(ws, h, of, label, steps, ms) ==
+  LET c2 == CountAfter(cnt, steps)
+      a2 == [acct EXCEPT !.sat = @ \/ SatIn(cnt, steps), !.missed = @ \/ ms,
+                         !.wr = IF steps = <<>> /\ h = hint THEN @ ELSE FALSE]
+  IN /\ plan' = Expand(ws) /\ after' = [hint |-> h, ofiles |-> of, fl |-> <<>>, cnt |-> c2, acct |-> a2] /\ lastOp' = label
+     /\ IF Expand(ws) = <<>> THEN hint' = h /\ ofiles' = of /\ cnt' = c2 /\ acct' = a2 ELSE UNCHANGED <<hint, ofiles, cnt, acct>>
+     /\ UNCHANGED <<fat, fat2, blk, crashed, info>>
+Start(ws, h, of, label) == StartC(ws, h, of, label, <<>>, FALSE)
 \* (a flush after an earlier crash promises nothing: the volume may carry that crash's residue)
 WithFlushed(fl) == IF crashed THEN flushed ELSE [x \in DOMAIN flushed \cup {fl[1]} |-> IF x = fl[1] THEN [c |-> fl[2], len |-> fl[3]] ELSE flushed[x]]
 
 IsOpen(n) == \E i \in 1..Len(ofiles) : ofiles[i].n = n
+\* update_info_sector (volume.rs 175-205): nothing on FAT16, nothing when neither value is known; a known value overwrites the stored one
+InfoWrite == IF ROOT16 \/ (cnt = -1 /\ hint = 0) THEN <<>> ELSE <<[t |-> "info", cnt |-> cnt, hint |-> hint]>>
 Unflush(n) == [x \in DOMAIN flushed \ {n} |-> flushed[x]]
 
 \* open_file_in_dir, create (volume_mgr.rs 536-571)
 Create(n) ==
   /\ Idle /\ Len(ofiles) < MaxOpen /\ LookupIdx(fat, blk, n) = 0
   /\ LET e == NewEntry(fat, blk, hint, [k |-> "file", n |-> n, c |-> 0, s |-> 0]) IN
-     Start(e.ws, e.hint, IF e.ok THEN Append(ofiles, [n |-> n, b |-> e.b, i |-> e.i, c |-> 0, len |-> 0, dirty |-> FALSE]) ELSE ofiles,
-           <<"create", n, e.ok>>)
+     StartC(e.ws, e.hint, IF e.ok THEN Append(ofiles, [n |-> n, b |-> e.b, i |-> e.i, c |-> 0, len |-> 0, dirty |-> FALSE]) ELSE ofiles,
+            <<"create", n, e.ok>>, IF e.took = 1 THEN <<-1>> ELSE <<>>, e.missed)
   /\ flushed' = flushed
 
 \* open an existing file (no device write)
@@ -176,8 +203,9 @@ OpenTrunc(n) ==
   /\ LET e == Live(fat, blk)[LookupIdx(fat, blk, n)]
          t == Truncate(fat, hint, e.sl.c)
      IN /\ e.sl.k = "file"
-        /\ Start(t.ws \o <<[t |-> "slot", b |-> e.b, i |-> e.i, sl |-> [e.sl EXCEPT !.s = 0]]>>, t.hint,
-                 Append(ofiles, [n |-> n, b |-> e.b, i |-> e.i, c |-> e.sl.c, len |-> 0, dirty |-> FALSE]), <<"opentrunc", n>>)
+        /\ StartC(t.ws \o <<[t |-> "slot", b |-> e.b, i |-> e.i, sl |-> [e.sl EXCEPT !.s = 0]]>>, t.hint,
+                  Append(ofiles, [n |-> n, b |-> e.b, i |-> e.i, c |-> e.sl.c, len |-> 0, dirty |-> FALSE]), <<"opentrunc", n>>,
+                  IF t.freed > 0 THEN <<t.freed>> ELSE <<>>, FALSE)
   /\ flushed' = Unflush(n)
 
 \* write extending the file by one cluster (volume_mgr.rs 781-912; data writes are not modelled here)
@@ -188,8 +216,8 @@ Extend(fi) ==
          room == f.c # 0 /\ Len(Chain(fat, f.c).cl) > f.len        \* the chain already has a cluster for it (after truncation)
          a == Alloc(fat, hint, tail, FALSE)
      IN IF room THEN Start(<<>>, hint, [ofiles EXCEPT ![fi].len = @ + 1, ![fi].dirty = TRUE], <<"extend", f.n, TRUE>>)
-        ELSE Start(a.ws, a.hint, IF a.ok THEN [ofiles EXCEPT ![fi].len = @ + 1, ![fi].dirty = TRUE, ![fi].c = IF f.c = 0 THEN a.c ELSE f.c]
-                                  ELSE [ofiles EXCEPT ![fi].dirty = TRUE], <<"extend", f.n, a.ok>>)
+        ELSE StartC(a.ws, a.hint, IF a.ok THEN [ofiles EXCEPT ![fi].len = @ + 1, ![fi].dirty = TRUE, ![fi].c = IF f.c = 0 THEN a.c ELSE f.c]
+                                   ELSE [ofiles EXCEPT ![fi].dirty = TRUE], <<"extend", f.n, a.ok>>, IF a.took = 1 THEN <<-1>> ELSE <<>>, a.missed)
   /\ flushed' = Unflush(ofiles[fi].n)
 
 \* flush_file / close_file (volume_mgr.rs 915-949): the entry becomes the in-memory one
@@ -197,12 +225,14 @@ FlushOrClose(fi, close) ==
   /\ Idle /\ fi \in 1..Len(ofiles)
   /\ LET f == ofiles[fi]
          of2 == IF close THEN [j \in 1..(Len(ofiles) - 1) |-> IF j < fi THEN ofiles[j] ELSE ofiles[j + 1]] ELSE ofiles
-         ws == IF f.dirty THEN <<[t |-> "slot", b |-> f.b, i |-> f.i, sl |-> [k |-> "file", n |-> f.n, c |-> f.c, s |-> f.len]]>> ELSE <<>>
+         \* a dirty file: the information sector (FAT32, if anything is known), then the entry   (volume_mgr.rs 934-948)
+         ws == IF f.dirty THEN InfoWrite \o <<[t |-> "slot", b |-> f.b, i |-> f.i, sl |-> [k |-> "file", n |-> f.n, c |-> f.c, s |-> f.len]]>> ELSE <<>>
          fl == <<f.n, f.c, f.len>>
+         a2 == IF f.dirty /\ InfoWrite # <<>> THEN [acct EXCEPT !.wr = TRUE] ELSE acct
      IN \* the durability promise starts when the call has returned: with the last device write
-        /\ plan' = Expand(ws) /\ after' = [hint |-> hint, ofiles |-> of2, fl |-> fl] /\ lastOp' = <<IF close THEN "close" ELSE "flush", f.n>>
+        /\ plan' = Expand(ws) /\ after' = [hint |-> hint, ofiles |-> of2, fl |-> fl, cnt |-> cnt, acct |-> a2] /\ lastOp' = <<IF close THEN "close" ELSE "flush", f.n>>
         /\ IF ws = <<>> THEN ofiles' = of2 /\ flushed' = WithFlushed(fl) ELSE UNCHANGED <<ofiles, flushed>>
-        /\ UNCHANGED <<fat, fat2, blk, crashed, hint>>
+        /\ UNCHANGED <<fat, fat2, blk, crashed, hint, cnt, info, acct>>
 
 \* delete_file_in_dir (volume_mgr.rs 656-692, volume.rs free_cluster_chain): entry first, then the chain
 Delete(n) ==
@@ -212,18 +242,19 @@ Delete(n) ==
          freeFirst == IF e.sl.c >= 2 THEN <<[t |-> "fat", c |-> e.sl.c, v |-> Free]>> ELSE <<>>
          h2 == IF e.sl.c >= 2 /\ (t.hint = 0 \/ t.hint > e.sl.c) THEN e.sl.c ELSE t.hint
      IN /\ e.sl.k = "file"
-        /\ Start(<<[t |-> "slot", b |-> e.b, i |-> e.i, sl |-> DelSlot]>> \o (IF BugF3 THEN <<>> ELSE t.ws \o freeFirst), IF BugF3 THEN hint ELSE h2, ofiles, <<"delete", n>>)
+        /\ StartC(<<[t |-> "slot", b |-> e.b, i |-> e.i, sl |-> DelSlot]>> \o (IF BugF3 THEN <<>> ELSE t.ws \o freeFirst), IF BugF3 THEN hint ELSE h2, ofiles, <<"delete", n>>,
+                  IF BugF3 \/ e.sl.c < 2 THEN <<>> ELSE (IF t.freed > 0 THEN <<t.freed>> ELSE <<>>) \o <<1>>, FALSE)
   /\ flushed' = Unflush(n)
 
 \* make_dir (volume.rs 1261-...): cluster, contents, then the entry in the parent (fix F9); on failure the cluster is freed
 MkDir(n) ==
   /\ ~BugF9 /\ Idle /\ LookupIdx(fat, blk, n) = 0
   /\ LET a == Alloc(fat, hint, 0, FALSE) IN
-     IF ~a.ok THEN Start(a.ws, a.hint, ofiles, <<"mkdir", n, FALSE>>)
+     IF ~a.ok THEN StartC(a.ws, a.hint, ofiles, <<"mkdir", n, FALSE>>, <<>>, a.missed)
      ELSE LET e == NewEntry(a.F, blk, a.hint, [k |-> "dir", n |-> n, c |-> a.c, s |-> 0]) IN
-          IF e.ok THEN Start(a.ws \o <<[t |-> "dots", c |-> a.c]>> \o e.ws, e.hint, ofiles, <<"mkdir", n, TRUE>>)
-          ELSE Start(a.ws \o <<[t |-> "dots", c |-> a.c]>> \o e.ws \o <<[t |-> "fat", c |-> a.c, v |-> Free]>>,
-                     IF e.hint = 0 \/ e.hint > a.c THEN a.c ELSE e.hint, ofiles, <<"mkdir", n, FALSE>>)
+          IF e.ok THEN StartC(a.ws \o <<[t |-> "dots", c |-> a.c]>> \o e.ws, e.hint, ofiles, <<"mkdir", n, TRUE>>, IF e.took = 1 THEN <<-1, -1>> ELSE <<-1>>, FALSE)
+          ELSE StartC(a.ws \o <<[t |-> "dots", c |-> a.c]>> \o e.ws \o <<[t |-> "fat", c |-> a.c, v |-> Free]>>,
+                      IF e.hint = 0 \/ e.hint > a.c THEN a.c ELSE e.hint, ofiles, <<"mkdir", n, FALSE>>, <<-1, 1>>, e.missed)
   /\ flushed' = flushed
 
 \* the order make_dir had before the repair: parent entry (no cluster), allocation, parent entry again, contents
@@ -245,22 +276,34 @@ Step ==
      /\ fat' = IF w.t = "fat" THEN ApplyFat(fat, w) ELSE fat
      /\ fat2' = IF w.t = "fat2" THEN SetF(fat2, w.c, w.v) ELSE IF NF = 1 /\ w.t = "fat" THEN ApplyFat(fat2, w) ELSE fat2
      /\ blk' = ApplyBlk(blk, w)
+     /\ info' = IF w.t = "info" THEN [cnt |-> IF w.cnt # -1 THEN w.cnt ELSE info.cnt, hint |-> IF w.hint # 0 THEN w.hint ELSE info.hint] ELSE info
   /\ plan' = Tail(plan)
-  /\ IF Len(plan) = 1 THEN hint' = after.hint /\ ofiles' = after.ofiles ELSE UNCHANGED <<hint, ofiles>>
+  /\ IF Len(plan) = 1 THEN hint' = after.hint /\ ofiles' = after.ofiles /\ cnt' = after.cnt /\ acct' = after.acct ELSE UNCHANGED <<hint, ofiles, cnt, acct>>
   /\ lastOp' = <<"w">>
   /\ flushed' = IF Len(plan) = 1 /\ after.fl # <<>> THEN WithFlushed(after.fl) ELSE flushed
   /\ UNCHANGED <<after, crashed>>
 
 \* power loss: the medium stays, memory is gone
 Crash ==
-  /\ plan' = <<>> /\ ofiles' = <<>> /\ hint' = 0 /\ crashed' = TRUE /\ lastOp' = <<"crash">>
-  /\ UNCHANGED <<fat, fat2, blk, after, flushed>>
+  /\ plan' = <<>> /\ ofiles' = <<>> /\ crashed' = TRUE /\ lastOp' = <<"crash">>
+  /\ hint' = info.hint /\ cnt' = info.cnt /\ acct' = [c0 |-> info.cnt, f0 |-> FreeNow, sat |-> FALSE, missed |-> acct.missed, wr |-> TRUE]
+  /\ UNCHANGED <<fat, fat2, blk, after, flushed, info>>
+
+\* close_volume (writes the information sector, volume_mgr.rs 336-362) and open_volume again: memory is rebuilt from the medium
+Remount ==
+  /\ Idle /\ ofiles = <<>> /\ ~ROOT16
+  /\ LET i2 == IF InfoWrite = <<>> THEN info ELSE [cnt |-> IF cnt # -1 THEN cnt ELSE info.cnt, hint |-> IF hint # 0 THEN hint ELSE info.hint] IN
+     /\ info' = i2 /\ cnt' = i2.cnt /\ hint' = i2.hint
+     /\ acct' = [c0 |-> i2.cnt, f0 |-> FreeNow, sat |-> FALSE, missed |-> acct.missed, wr |-> TRUE]
+  /\ lastOp' = <<"remount">>
+  /\ UNCHANGED <<fat, fat2, blk, ofiles, plan, after, flushed, crashed>>
 
 Next ==
   \/ \E n \in Names : Create(n) \/ Open(n) \/ OpenTrunc(n) \/ Delete(n) \/ MkDir(n) \/ MkDirOld(n)
   \/ \E fi \in 1..MaxOpen : Extend(fi) \/ FlushOrClose(fi, FALSE) \/ FlushOrClose(fi, TRUE)
   \/ Step
   \/ Crash
+  \/ Remount
 Spec == Init /\ [][Next]_vars
 
 \* ------------------------------------------------------------------ properties
@@ -294,5 +337,14 @@ WellFormed == Returned /\ ~crashed =>
 SpaceExact == Returned /\ ~crashed => InUse \subseteq Owned \cup PendingClusters
 NoInvented == \A c \in End..(L - 1) : fat[c] = Free                                              \* slack entries are never handed out (C04/C05)
 FatCopiesEqual == Returned /\ ~crashed => fat = fat2
-HintInRange == hint = 0 \/ hint \in Clusters
+HintInRange == hint = 0 \/ hint \in Clusters \/ (~ROOT16 /\ hint \in HintChoices)     \* (a stale stored hint is kept until the first allocation)
+\* C16, FAT32: the in-memory count moves by exactly what was freed and allocated since the mount (unless a stale count ran into 0)
+\* (f0 and FreeNow are read from the FAT, not from the calls' own bookkeeping)
+CountTracks == Returned /\ ~ROOT16 /\ cnt # -1 /\ ~acct.sat => cnt - acct.c0 = FreeNow - acct.f0
+\* ... so a count that was right at the mount is right now
+CountExact == Returned /\ ~ROOT16 /\ cnt # -1 /\ ~acct.sat /\ acct.c0 = acct.f0 => cnt = FreeNow
+\* a wrong or stale record never makes an allocation fail while a cluster is free
+NoMissedAllocation == ~acct.missed
+\* after flush / close of a modified file and after close_volume the sector holds the in-memory values
+RecordWritten == Returned /\ ~ROOT16 /\ acct.wr /\ lastOp[1] \in {"flush", "close", "remount"} => (cnt # -1 => info.cnt = cnt) /\ (hint # 0 => info.hint = hint)
 =============================================================================
